@@ -593,9 +593,9 @@ func newBundleGen(r *RNG, opts bundleOpts) *bundleGen {
 func (g *bundleGen) bundle() *gBundle {
 	g.all = nil
 	b := &gBundle{}
-	nf := 1 + g.r.Intn(3)
+	nf := 1 + g.r.Intn(4)
 	for i := 0; i < nf; i++ {
-		f := &gFile{name: fmt.Sprintf("f%d.soy", i), ns: []string{"ns.a", "ns.b", "other"}[i]}
+		f := &gFile{name: fmt.Sprintf("f%d.soy", i), ns: []string{"ns.a", "ns.a.sub", "ns.b", "other"}[i]}
 		switch g.r.Intn(5) {
 		case 0:
 			f.autoesc = "false"
